@@ -342,6 +342,141 @@ func boolDNFIdx(c *ssa.Call, idx int, want bool, depth int) ([][]string, bool) {
 	return out, true
 }
 
+// phiDNF: conditions under which a short-circuit boolean (the φ of an && / ||
+// used as a value) equals want.
+func phiDNF(ph *ssa.Phi, want bool, depth int) ([][]string, bool) {
+	if depth > 3 || ph.Comment != "&&" && ph.Comment != "||" {
+		return nil, false
+	}
+	var out [][]string
+	for j, e := range ph.Edges {
+		pred := ph.Block().Preds[j]
+		var edge []string
+		if iff, ok := pred.Instrs[len(pred.Instrs)-1].(*ssa.If); ok && pred.Succs[0] != pred.Succs[1] {
+			edge = expandAtomConj(Atom{iff.Cond, pred.Succs[0] == ph.Block()}, depth+1)
+		}
+		var val [][]string
+		if k, ok := e.(*ssa.Const); ok && k.Value != nil {
+			if (k.Value.ExactString() == "true") != want {
+				continue
+			}
+			val = [][]string{{}}
+		} else {
+			val = expandAtomDNF(Atom{e, want}, depth+1)
+		}
+		for _, conj := range pathCondsNoCtx(pred) {
+			for _, vc := range val {
+				out = append(out, uniqSorted(append(append(append([]string{}, conj...), edge...), vc...)))
+			}
+		}
+	}
+	if len(out) == 0 || len(out) > 16 {
+		return nil, false
+	}
+	return out, true
+}
+
+// nilTest: v compares result #idx of a call with nil; eq tells whether it is an == test.
+func nilTest(v ssa.Value) (call *ssa.Call, idx int, eq bool, ok bool) {
+	bo, isBo := v.(*ssa.BinOp)
+	if !isBo || bo.Op != token.EQL && bo.Op != token.NEQ {
+		return
+	}
+	x, y := bo.X, bo.Y
+	if IsNilConst(x) {
+		x, y = y, x
+	}
+	if !IsNilConst(y) {
+		return
+	}
+	if ex, isEx := x.(*ssa.Extract); isEx {
+		call, _ = ex.Tuple.(*ssa.Call)
+		idx = ex.Index
+	} else {
+		call, _ = x.(*ssa.Call)
+	}
+	return call, idx, bo.Op == token.EQL, call != nil
+}
+
+// nilDNFIdx: conditions (in the caller's terms) under which result #idx of a
+// call to a side-effect-free helper is nil (wantNil) / non-nil. Fails when
+// some return value's nil-ness is not evident.
+func nilDNFIdx(c *ssa.Call, idx int, wantNil bool, depth int) ([][]string, bool) {
+	callee := c.Call.StaticCallee()
+	if callee == nil || depth > 3 || !curProgRoot(callee) || len(callee.Blocks) == 0 || !Eligible(callee) {
+		return nil, false
+	}
+	if idx >= callee.Signature.Results().Len() {
+		return nil, false
+	}
+	switch callee.Signature.Results().At(idx).Type().Underlying().(type) {
+	case *types.Interface, *types.Pointer:
+	default:
+		return nil, false
+	}
+	if !sideEffectFree(callee, 0) {
+		return nil, false
+	}
+	env := map[*ssa.Parameter]string{}
+	for i, a := range c.Call.Args {
+		if i < len(callee.Params) {
+			env[callee.Params[i]] = Desc(a)
+		}
+	}
+	descEnv = append(descEnv, env)
+	defer func() { descEnv = descEnv[:len(descEnv)-1] }()
+	var out [][]string
+	fail := false
+	var addVal func(v ssa.Value, conds [][]string, d int)
+	addVal = func(v ssa.Value, conds [][]string, d int) {
+		switch x := v.(type) {
+		case *ssa.Const:
+			if x.Value == nil {
+				if wantNil {
+					out = append(out, conds...)
+				}
+				return
+			}
+		case *ssa.MakeInterface, *ssa.Alloc:
+			if !wantNil {
+				out = append(out, conds...)
+			}
+			return
+		case *ssa.Call:
+			if IsCallTo(x, "fmt.Errorf") || IsCallTo(x, "errors.New") {
+				if !wantNil {
+					out = append(out, conds...)
+				}
+				return
+			}
+		case *ssa.Phi:
+			if d < 4 {
+				for j, e := range x.Edges {
+					pred := x.Block().Preds[j]
+					var edge []string
+					if iff, ok := pred.Instrs[len(pred.Instrs)-1].(*ssa.If); ok && pred.Succs[0] != pred.Succs[1] {
+						edge = expandAtomConj(Atom{iff.Cond, pred.Succs[0] == x.Block()}, depth+1)
+					}
+					var cs [][]string
+					for _, conj := range pathCondsNoCtx(pred) {
+						cs = append(cs, uniqSorted(append(append([]string{}, conj...), edge...)))
+					}
+					addVal(e, cs, d+1)
+				}
+				return
+			}
+		}
+		fail = true
+	}
+	for _, r := range Returns(callee) {
+		addVal(RetVals(r)[idx], pathCondsNoCtx(r.Block()), 0)
+	}
+	if fail || len(out) == 0 || len(out) > 16 {
+		return nil, false
+	}
+	return out, true
+}
+
 func curProgRoot(f *ssa.Function) bool { return curProg != nil && curProg.isRootFn(f) }
 
 func uniqSorted(s []string) []string {
@@ -364,7 +499,7 @@ func sideEffectFree(f *ssa.Function, depth int) bool {
 	AllInstrs(f, func(i ssa.Instruction) {
 		switch x := i.(type) {
 		case *ssa.Store:
-			if _, local := x.Addr.(*ssa.Alloc); !local {
+			if _, local := Root(x.Addr).(*ssa.Alloc); !local {
 				ok = false
 			}
 		case *ssa.Send, *ssa.Go, *ssa.Defer, *ssa.MapUpdate, *ssa.Panic:
@@ -422,6 +557,34 @@ func expandAtomConj(a Atom, depth int) []string {
 		}
 		break
 	}
+	if ph, isPhi := v.(*ssa.Phi); isPhi {
+		if dnf, ok := phiDNF(ph, pol, depth); ok {
+			if len(dnf) == 1 {
+				return dnf[0]
+			}
+			var parts []string
+			for _, conj := range dnf {
+				parts = append(parts, strings.Join(conj, " ∧ "))
+			}
+			sort.Strings(parts)
+			return []string{"(" + strings.Join(parts, " ∨ ") + ")"}
+		}
+	}
+	if nc, nidx, eq, isNil := nilTest(v); isNil {
+		// the test itself stays visible next to what it stands for
+		self := atomStringRaw(Atom{v, pol})
+		if dnf, ok := nilDNFIdx(nc, nidx, eq == pol, depth); ok {
+			if len(dnf) == 1 {
+				return append([]string{self}, dnf[0]...)
+			}
+			var parts []string
+			for _, conj := range dnf {
+				parts = append(parts, strings.Join(conj, " ∧ "))
+			}
+			sort.Strings(parts)
+			return []string{self, "(" + strings.Join(parts, " ∨ ") + ")"}
+		}
+	}
 	call, isCall := v.(*ssa.Call)
 	idx := 0
 	if ex, isEx := v.(*ssa.Extract); isEx {
@@ -459,6 +622,21 @@ func expandAtomDNF(a Atom, depth int) [][]string {
 	if ex, isEx := v.(*ssa.Extract); isEx {
 		call, isCall = ex.Tuple.(*ssa.Call)
 		idx = ex.Index
+	}
+	if ph, isPhi := v.(*ssa.Phi); isPhi {
+		if dnf, ok := phiDNF(ph, pol, depth); ok {
+			return dnf
+		}
+	}
+	if nc, nidx, eq, isNil := nilTest(v); isNil {
+		if dnf, ok := nilDNFIdx(nc, nidx, eq == pol, depth); ok {
+			self := atomStringRaw(Atom{v, pol})
+			var out [][]string
+			for _, conj := range dnf {
+				out = append(out, append([]string{self}, conj...))
+			}
+			return out
+		}
 	}
 	if isCall {
 		if dnf, ok := boolDNFIdx(call, idx, pol, depth); ok {
